@@ -5,13 +5,11 @@ go 1.23
 toolchain go1.23.5
 
 require (
+	golang.org/x/crypto v0.0.0-20220321153916-2c7772ba3064
 	pgregory.net/rapid v1.3.0
 	verifref v0.0.0
 )
 
-require (
-	golang.org/x/crypto v0.0.0-20220321153916-2c7772ba3064 // indirect
-	golang.org/x/sys v0.0.0-20220325203850-36772127a21f // indirect
-)
+require golang.org/x/sys v0.0.0-20220325203850-36772127a21f // indirect
 
 replace verifref => /verif/ref
